@@ -114,6 +114,42 @@ def d1(db, rep, rule="D1-R-LOCK"):
 
 
 
+def once_enter_value_guarded(db, rep, rule):
+    """orc_once_enter hands out once->value only on paths where an acquire load of `inited` returned non-zero (shared with
+    C07: a lazily initialised wrapper receives its OrcCode through this value)."""
+    tu_any = next(t for t in db.tus.values() if "orc_once_enter" in t.fn)
+    en = tu_any.fn["orc_once_enter"]
+    rep.saw(en)
+    fc = Facts(en)
+    loads = [n for n in en.walk() if n.k == "MemberExpr" and n.name == "value" and n.get("arrow") and n.parent is not None
+             and not (n.parent.k == "BinaryOperator" and n.parent.op == "=" and n.parent.c[0] is n)]
+    acq = [n for n in en.walk() if n.k == "AtomicExpr" and n.get("aop") == "load"]
+    okl = bool(loads) and bool(acq) and all(a.get("order") in (1, 2, 4, 5) for a in acq)
+    for ld in loads:
+        # guarded by a non-zero test of the variable the acquire load was assigned to
+        conds = fc.conds(ld)
+        g = False
+        for c in conds:
+            if c[0] == "switch":
+                continue
+            cn, pol = c
+            if cn.k == "CallExpr" and cn.name == "__builtin_expect":
+                cn = strip_casts(cn.args()[0])
+            if cn.k == "DeclRefExpr" and pol:
+                # that local's latest definition is an acquire load dominating ld
+                for a in acq:
+                    p = a.parent
+                    while p is not None and p.k == "CStyleCastExpr":
+                        p = p.parent
+                    if p is not None and p.k == "BinaryOperator" and access_path(p.c[0]) == cn.name and en.dominates(a, ld):
+                        g = True
+        okl = okl and g
+    rep.check(okl, rule, where(en), "acquire-load-before-value",
+              "every read of once->value is guarded by a non-zero acquire load of `inited`",
+              "orc_once_enter reads once->value on a path not guarded by an acquire load of `inited` that returned non-zero")
+
+
+
 def run(ctx):
     db = ctx.db()
     rep = ctx.report
@@ -175,33 +211,7 @@ def run(ctx):
     rep.check(ok, "D3-PUBLICATION", where(lv), "value;release-store;unlock",
               "value stored before the release store of `inited`, which precedes the unlock (memory order %s)" % st_flag[0].get("order"),
               "orc_once_leave publishes in the wrong order or with a memory order weaker than release (order=%s): a reader can see inited != 0 with a stale value" % st_flag[0].get("order"))
-    fc = Facts(en)
-    loads = [n for n in en.walk() if n.k == "MemberExpr" and n.name == "value" and n.get("arrow") and n.parent is not None
-             and not (n.parent.k == "BinaryOperator" and n.parent.op == "=" and n.parent.c[0] is n)]
-    acq = [n for n in en.walk() if n.k == "AtomicExpr" and n.get("aop") == "load"]
-    okl = bool(loads) and bool(acq) and all(a.get("order") in (1, 2, 4, 5) for a in acq)
-    for ld in loads:
-        # guarded by a non-zero test of the variable the acquire load was assigned to
-        conds = fc.conds(ld)
-        g = False
-        for c in conds:
-            if c[0] == "switch":
-                continue
-            cn, pol = c
-            if cn.k == "CallExpr" and cn.name == "__builtin_expect":
-                cn = strip_casts(cn.args()[0])
-            if cn.k == "DeclRefExpr" and pol:
-                # that local's latest definition is an acquire load dominating ld
-                for a in acq:
-                    p = a.parent
-                    while p is not None and p.k == "CStyleCastExpr":
-                        p = p.parent
-                    if p is not None and p.k == "BinaryOperator" and access_path(p.c[0]) == cn.name and en.dominates(a, ld):
-                        g = True
-        okl = okl and g
-    rep.check(okl, "D3-PUBLICATION", where(en), "acquire-load-before-value",
-              "every read of once->value is guarded by a non-zero acquire load of `inited`",
-              "orc_once_enter reads once->value on a path not guarded by an acquire load of `inited` that returned non-zero")
+    once_enter_value_guarded(db, rep, "D3-PUBLICATION")
 
     # ---- D4 -------------------------------------------------------------------
     run_roots = ["orc_program_compile", "orc_program_compile_for_target", "orc_target_get_default", "orc_program_compile_full", "orc_executor_run", "orc_executor_run_backup", "orc_executor_emulate",
